@@ -15,9 +15,9 @@
 
 namespace vx {
 
-#define VX_API_OP(NAME, ARITY, EXPR) \
+#define VX_API_OP(NAME, ARITY, ...) \
     struct NAME : OpBase { static const int arity = ARITY; static const char* name() { return #NAME; } \
-        template<class V> static auto apply(V a, V b, V c) VX_AUTO(EXPR) \
+        template<class V> static auto apply(V a, V b, V c) VX_AUTO(__VA_ARGS__) \
         template<class S> static std::uint64_t model(S, S, S) { return 0; } };
 
 // operations no other harness touches
@@ -40,6 +40,93 @@ VX_API_OP(api_rotr_const, 1, avel::rotr<3>(a))
 VX_API_OP(api_bit_shift_left, 1, avel::bit_shift_left<1>(a))
 VX_API_OP(api_bit_shift_right, 1, avel::bit_shift_right<1>(a))
 
+// the rest of the catalogue: values of these are decided by C01..C17, here they only have to exist, be defined and link for every width
+template<class V> inline typename V::scalar* api_buf() { alignas(64) static typename V::scalar buf[256]; return buf; }
+template<class V> struct api_index { typedef avel::Vector<typename sint_of<typename V::scalar>::type, V::width> type; };
+template<class V> inline typename api_index<V>::type api_idx() { return typename api_index<V>::type(typename sint_of<typename V::scalar>::type(0)); }
+template<class V> inline typename api_index<V>::type& api_exp() { static typename api_index<V>::type e; return e; }
+typedef long long api_ll;
+
+VX_API_OP(api_add, 2, a + b)
+VX_API_OP(api_sub, 2, a - b)
+VX_API_OP(api_mul, 2, a * b)
+VX_API_OP(api_quot, 2, a / b)
+VX_API_OP(api_add_assign, 2, V(a += b))
+VX_API_OP(api_sub_assign, 2, V(a -= b))
+VX_API_OP(api_mul_assign, 2, V(a *= b))
+VX_API_OP(api_quot_assign, 2, V(a /= b))
+VX_API_OP(api_neg, 1, -a)
+VX_API_OP(api_unary_plus, 1, +a)
+VX_API_OP(api_preinc, 1, V(++a))
+VX_API_OP(api_predec, 1, V(--a))
+VX_API_OP(api_postinc, 1, V(a++))
+VX_API_OP(api_postdec, 1, V(a--))
+VX_API_OP(api_eq, 2, a == b)
+VX_API_OP(api_ne, 2, a != b)
+VX_API_OP(api_lt, 2, a < b)
+VX_API_OP(api_le, 2, a <= b)
+VX_API_OP(api_gt, 2, a > b)
+VX_API_OP(api_ge, 2, a >= b)
+VX_API_OP(api_bit_and, 2, a & b)
+VX_API_OP(api_bit_or, 2, a | b)
+VX_API_OP(api_bit_xor, 2, a ^ b)
+VX_API_OP(api_bit_not, 1, ~a)
+VX_API_OP(api_bit_and_assign, 2, V(a &= b))
+VX_API_OP(api_bit_or_assign, 2, V(a |= b))
+VX_API_OP(api_bit_xor_assign, 2, V(a ^= b))
+VX_API_OP(api_shl_vec, 2, a << b)
+VX_API_OP(api_shr_vec, 2, a >> b)
+VX_API_OP(api_shl_vec_assign, 2, V(a <<= b))
+VX_API_OP(api_shr_vec_assign, 2, V(a >>= b))
+VX_API_OP(api_shl_scalar, 1, a << api_ll(3))
+VX_API_OP(api_shr_scalar, 1, a >> api_ll(3))
+VX_API_OP(api_shl_scalar_assign, 1, V(a <<= api_ll(3)))
+VX_API_OP(api_shr_scalar_assign, 1, V(a >>= api_ll(3)))
+VX_API_OP(api_rotl_vec, 2, avel::rotl(a, b))
+VX_API_OP(api_rotr_vec, 2, avel::rotr(a, b))
+VX_API_OP(api_mask_and, 2, (a == b) & (a < b))
+VX_API_OP(api_mask_or, 2, (a == b) | (a < b))
+VX_API_OP(api_mask_xor, 2, (a == b) ^ (a < b))
+VX_API_OP(api_mask_not, 2, !(a == b))
+VX_API_OP(api_mask_and_assign, 2, typename V::mask((a == b) &= (a < b)))
+VX_API_OP(api_mask_or_assign, 2, typename V::mask((a == b) |= (a < b)))
+VX_API_OP(api_mask_xor_assign, 2, typename V::mask((a == b) ^= (a < b)))
+VX_API_OP(api_mask_eq, 2, (a == b) == (a < b))
+VX_API_OP(api_mask_ne, 2, (a == b) != (a < b))
+VX_API_OP(api_mask_count, 2, avel::count(a == b))
+VX_API_OP(api_mask_any, 2, avel::any(a == b))
+VX_API_OP(api_mask_all, 2, avel::all(a == b))
+VX_API_OP(api_mask_none, 2, avel::none(a == b))
+VX_API_OP(api_mask_extract, 2, avel::extract<0>(a == b))
+VX_API_OP(api_mask_insert, 2, avel::insert<0>(a == b, true))
+VX_API_OP(api_mask_from_bool, 1, (a == a) & typename V::mask(true))
+VX_API_OP(api_extract, 1, avel::extract<0>(a))
+VX_API_OP(api_insert, 1, avel::insert<0>(a, typename V::scalar(1)))
+VX_API_OP(api_broadcast, 1, a + V(typename V::scalar(1)))
+VX_API_OP(api_assign_scalar, 1, V(a = typename V::scalar(1)))
+VX_API_OP(api_load, 1, a + avel::load<V>(api_buf<V>()))
+VX_API_OP(api_load_n, 1, a + avel::load<V>(api_buf<V>(), 1u))
+VX_API_OP(api_load_ct, 1, a + avel::load<V, 1>(api_buf<V>()))
+VX_API_OP(api_aligned_load, 1, a + avel::aligned_load<V>(api_buf<V>()))
+VX_API_OP(api_aligned_load_n, 1, a + avel::aligned_load<V>(api_buf<V>(), 1u))
+VX_API_OP(api_aligned_load_ct, 1, a + avel::aligned_load<V, 1>(api_buf<V>()))
+VX_API_OP(api_store, 1, (avel::store(api_buf<V>(), a), a))
+VX_API_OP(api_store_n, 1, (avel::store(api_buf<V>(), a, 1u), a))
+VX_API_OP(api_store_ct, 1, (avel::store<1>(api_buf<V>(), a), a))
+VX_API_OP(api_aligned_store, 1, (avel::aligned_store(api_buf<V>(), a), a))
+VX_API_OP(api_aligned_store_n, 1, (avel::aligned_store(api_buf<V>(), a, 1u), a))
+VX_API_OP(api_aligned_store_ct, 1, (avel::aligned_store<1>(api_buf<V>(), a), a))
+VX_API_OP(api_gather, 1, a + avel::gather<V>(api_buf<V>(), api_idx<V>()))
+VX_API_OP(api_gather_n, 1, a + avel::gather<V>(api_buf<V>(), api_idx<V>(), 1u))
+VX_API_OP(api_gather_ct, 1, a + avel::gather<V, 1>(api_buf<V>(), api_idx<V>()))
+VX_API_OP(api_scatter, 1, (avel::scatter(api_buf<V>(), a, api_idx<V>()), a))
+VX_API_OP(api_scatter_n, 1, (avel::scatter(api_buf<V>(), a, api_idx<V>(), 1u), a))
+VX_API_OP(api_scatter_ct, 1, (avel::scatter<1>(api_buf<V>(), a, api_idx<V>()), a))
+VX_API_OP(api_sqrt, 1, avel::sqrt(a))
+VX_API_OP(api_frexp, 1, avel::frexp(a, &api_exp<V>()))
+VX_API_OP(api_minmax, 2, osel::at1(avel::minmax(a, b)))
+
+inline std::string& not_offered() { static std::string s; return s; }
 typedef void (*anyfn)();
 static volatile anyfn sink_table[4096];
 static unsigned sink_n;
@@ -61,17 +148,29 @@ struct Use<V, Op, true, false> {  // the width-1 vector offers it, V does not
     }
 };
 template<class V, class Op, bool HERE>
-struct Use<V, Op, false, HERE> { static void go(Stat&) {} };
+struct Use<V, Op, false, HERE> { static void go(Stat&) { not_offered() += std::string(not_offered().empty() ? "" : " ") + Op::name(); } };
 
 template<class V>
 struct PerType {
     static void run() {
         if (V::width == 1) return;
+        not_offered().clear();
         if (!opt().only_subject.empty() && opt().only_subject != vname<V>()) return;
         Stat& st = new_stat(vname<V>(), "api_parity_with_width_1", "every operation in the harness' operation catalogue that the width-1 vector of the element type offers");
 #define U(OP) Use<V, OP>::go(st);
         U(api_fmod) U(api_rem_operator) U(api_rem_assign) U(api_count) U(api_any) U(api_all) U(api_none) U(api_byteswap) U(api_decay) U(api_to_array)
         U(api_mask_from_vector) U(api_div) U(api_rotl_scalar) U(api_rotr_scalar) U(api_rotl_const) U(api_rotr_const) U(api_bit_shift_left) U(api_bit_shift_right)
+        U(api_add) U(api_sub) U(api_mul) U(api_quot) U(api_add_assign) U(api_sub_assign) U(api_mul_assign) U(api_quot_assign) U(api_neg) U(api_unary_plus)
+        U(api_preinc) U(api_predec) U(api_postinc) U(api_postdec) U(api_eq) U(api_ne) U(api_lt) U(api_le) U(api_gt) U(api_ge)
+        U(api_bit_and) U(api_bit_or) U(api_bit_xor) U(api_bit_not) U(api_bit_and_assign) U(api_bit_or_assign) U(api_bit_xor_assign)
+        U(api_shl_vec) U(api_shr_vec) U(api_shl_vec_assign) U(api_shr_vec_assign) U(api_shl_scalar) U(api_shr_scalar) U(api_shl_scalar_assign) U(api_shr_scalar_assign)
+        U(api_rotl_vec) U(api_rotr_vec) U(api_mask_and) U(api_mask_or) U(api_mask_xor) U(api_mask_not) U(api_mask_and_assign) U(api_mask_or_assign) U(api_mask_xor_assign)
+        U(api_mask_eq) U(api_mask_ne) U(api_mask_count) U(api_mask_any) U(api_mask_all) U(api_mask_none) U(api_mask_extract) U(api_mask_insert) U(api_mask_from_bool)
+        U(api_extract) U(api_insert) U(api_broadcast) U(api_assign_scalar)
+        U(api_load) U(api_load_n) U(api_load_ct) U(api_aligned_load) U(api_aligned_load_n) U(api_aligned_load_ct)
+        U(api_store) U(api_store_n) U(api_store_ct) U(api_aligned_store) U(api_aligned_store_n) U(api_aligned_store_ct)
+        U(api_gather) U(api_gather_n) U(api_gather_ct) U(api_scatter) U(api_scatter_n) U(api_scatter_ct)
+        U(api_sqrt) U(api_frexp) U(api_minmax)
         U(osel::blend) U(osel::keep) U(osel::clear) U(osel::negate) U(osel::min) U(osel::max) U(osel::minmax_lo) U(osel::clamp) U(osel::abs) U(osel::neg_abs) U(osel::vector_from_mask)
 #if VX_PART < 100
         U(osel::average) U(osel::midpoint) U(osel::set_bits)
@@ -85,7 +184,8 @@ struct PerType {
         U(ofc::isgreater) U(ofc::isgreaterequal) U(ofc::isless) U(ofc::islessequal) U(ofc::islessgreater) U(ofc::isunordered)
 #endif
 #undef U
-        add_sample(st, "{\"operations_checked\":" + u64s(st.evals) + "}");
+        add_sample(st, "{\"operations_checked\":" + u64s(st.evals) + ",\"catalogue_entries_the_width_1_vector_does_not_offer\":" + jstr(not_offered()) + "}");
+        not_offered().clear();
     }
 };
 
